@@ -347,6 +347,11 @@ func c16NestedPrograms() []*progCase {
 		call(Mem(call(V("o1"), "pluck", S("id")), "id"), "floor"),
 	}
 	var out []*progCase
+	// built-ins inside root selectors
+	for _, sel := range []Expr{CallE(V("num"), Mem(V("$"), "total")), CallE(Mem(Mem(V("$"), "name"), "upper")), CallE(Mem(V("$"), "pluck"), S("total")), Idx(CallE(Mem(Mem(V("$"), "name"), "split"), S("n")), N("1"))} {
+		out = append(out, &progCase{P: &Program{Rules: []*Rule{{Body: Blk(Pr(V("$")), &If{Cond: &IsExpr{V("$"), "number"}, Then: Blk(Pr(CallE(Mem(V("$"), "round"))))})}}},
+			Files: []inFile{{"in.json", `{"total":"12.5","name":"ann"}`}}, Sels: []Expr{sel, V("$")}})
+	}
 	for _, e := range exprs {
 		body := append(append([]Stmt{}, setup...), Ex(Asg("=", V("r"), e)), Pr(V("r")), Pr(V("s1"), V("s2"), V("n1"), V("n2"), V("o1"), V("o2")))
 		out = append(out, &progCase{P: &Program{Rules: []*Rule{{Kind: "BEGIN", Body: Blk(body...)}}}})
